@@ -61,7 +61,7 @@ fn message() -> impl Strategy<Value = String> {
             c.to_string().repeat(n / w.max(1))
         }),
         // alone just under / over the limit once wrapped
-        1 => (prop::sample::select(vec![63_000usize, 63_900, 64_200, 64_400, 64_600, 65_536, 70_000, 140_000]), prop::sample::select(vec!['a', 'z'])).prop_map(|(n, c)| c.to_string().repeat(n)),
+        1 => (prop::sample::select(vec![63_000usize, 63_900, 64_200, 64_400, 64_600, 65_536, 70_000, 140_000]), prop::sample::select(vec!['a', 'z', 'a', '\u{e9}', '\u{597d}', '\u{1f980}']), 0usize..4).prop_map(|(n, c, pad)| format!("{}{}", "p".repeat(pad), c.to_string().repeat(n / c.len_utf8()))),
     ]
 }
 
@@ -86,7 +86,7 @@ fn strategy() -> impl Strategy<Value = Case> {
     ], prop::option::weighted(0.3, (-2i8..=2, 1u8..=5))).prop_map(|(files, faults, exact)| Case { files, faults, exact })
 }
 
-const RULE: &str = "generator: 0-4 event files x 0-13 events; message text = any Unicode scalar values except controls, drawn heavily from markup (< > & ' \" ]]> <![CDATA[ &amp; </Event> <Param .../>), non-BMP characters and long runs sized so that batch totals land around 64 KiB and single events land just under / over 64 KiB once wrapped; every event carries a unique marker in OperationId, followed in a third of the events by markup; Version, TimeStamp and EventLevel of the stored event carry markup as well in a third of the events each; the telemetry endpoint answers the successive POSTs by a generated pattern (accept / 5xx,4xx / connection reset / accept late; one case in six: 0-3 accepted POSTs followed by 5-7 refusals in a row, i.e. a batch that is given up). The real EventReader runs on a paused-clock runtime against a raw mock that also serves goal state, shared config and instance info. oracle: every POST body is < 65536 bytes and parses with xml-rs as TelemetryData/Provider/Event*; each event's character data parsed again as a fragment is a list of Param elements whose Context1 / Context2 / Context3 / TaskName / GAVersion / OpcodeName / CapabilityUsed values decode to exactly the original strings; over all ACCEPTED POSTs no marker occurs twice and all POSTs containing a marker are byte-identical (re-sends of one batch); an event that cannot fit alone appears in no POST; every other event is posted and, unless the host refused all five attempts of its batch, accepted; the run ends and every consumed .json file is gone. non-trivial: a batch boundary was crossed, or an oversize event or a failure pattern is present, or a message contains markup; distinct by hash of the case.";
+const RULE: &str = "generator: 0-4 event files x 0-13 events; message text = any Unicode scalar values except controls, drawn heavily from markup (< > & ' \" ]]> <![CDATA[ &amp; </Event> <Param .../>), non-BMP characters and long runs sized so that batch totals land around 64 KiB and single events land just under / over 64 KiB once wrapped (ASCII or runs of 2-, 3- and 4-byte characters behind 0-3 ASCII characters); every event carries a unique marker in OperationId, followed in a third of the events by markup; Version, TimeStamp and EventLevel of the stored event carry markup as well in a third of the events each; the telemetry endpoint answers the successive POSTs by a generated pattern (accept / 5xx,4xx / connection reset / accept late; one case in six: 0-3 accepted POSTs followed by 5-7 refusals in a row, i.e. a batch that is given up). The real EventReader runs on a paused-clock runtime against a raw mock that also serves goal state, shared config and instance info. oracle: every POST body is < 65536 bytes and parses with xml-rs as TelemetryData/Provider/Event*; each event's character data parsed again as a fragment is a list of Param elements whose Context1 / Context2 / Context3 / TaskName / GAVersion / OpcodeName / CapabilityUsed values decode to exactly the original strings; over all ACCEPTED POSTs no marker occurs twice and all POSTs containing a marker are byte-identical (re-sends of one batch); an event that cannot fit alone appears in no POST; every other event is posted and, unless the host refused all five attempts of its batch, accepted; the run ends and every consumed .json file is gone. non-trivial: a batch boundary was crossed, or an oversize event or a failure pattern is present, or a message contains markup; distinct by hash of the case.";
 
 struct HostState {
     faults: VecDeque<Option<PostFault>>,
